@@ -135,6 +135,7 @@ func GenPlan(t *rapid.T, profile string, k Knobs) *Plan {
 			in.Priority = rapid.SampledFrom([]int{0, 1, 1, 2, 2, 3, 100}).Draw(t, "prio")
 			in.Takeover = in.Priority > 0 && rapid.IntRange(0, 2).Draw(t, "takeover") > 0
 		}
+		in.CorrID = rapid.Bool().Draw(t, "corr_id")
 		if tiePrio > 0 {
 			in.Priority, in.Takeover = tiePrio, rapid.IntRange(0, 3).Draw(t, "takeover_tie") > 0
 		}
